@@ -186,6 +186,38 @@ func initExterns() {
 			tr.assume(eq("(uf1 2 "+s+")", args[0].one()))
 			return &Val{T: resT, A: []string{s}}
 		}}
+	// sorting: the elements of the slice's backing array are permuted; nothing else changes
+	sortH := func(name string) {
+		externs[name] = &externH{mods: nil, doc: name + " permutes the elements of the given slice in place (order per the less function); no other memory changes",
+			fn: func(tr *FnCtx, st *State, args []*Val, resT types.Type, instr ssa.Instruction, mode string) *Val {
+				tr.use(name + ": permutes the slice in place; the resulting order is assumed to follow the less function (sort package)")
+				ci, ok := instr.(ssa.CallInstruction)
+				if !ok {
+					tr.havocAll(st)
+					return unit(resT)
+				}
+				var sv ssa.Value = ci.Common().Args[0]
+				if mi, ok := sv.(*ssa.MakeInterface); ok {
+					sv = mi.X
+				}
+				sl, ok := sv.Type().Underlying().(*types.Slice)
+				v := tr.val(sv)
+				if !ok || len(v.A) != 4 {
+					tr.note(name + " on a non-slice value: everything havocked")
+					tr.havocAll(st)
+					return unit(resT)
+				}
+				for _, cc := range tr.W.cellComps(sl.Elem()) {
+					old := tr.cur(st, cc)
+					nw := tr.havocComp(st, cc)
+					tr.assumeRaw(fmt.Sprintf("(forall ((a Int)) (! (=> (not (and (< a 0) (= (elemB a) %s) (<= %s (elemI a)) (< (elemI a) (+ %s %s)))) (= (select %s a) (select %s a))) :pattern ((select %s a))))", v.A[0], v.A[1], v.A[1], v.A[2], nw, old, nw))
+				}
+				return unit(resT)
+			}}
+	}
+	sortH("sort.Slice")
+	sortH("sort.SliceStable")
+	sortH("sort.Strings")
 	externs["github.com/gofrs/uuid.FromString"] = &externH{doc: "inverse of UUID.String on valid ids",
 		fn: func(tr *FnCtx, st *State, args []*Val, resT types.Type, instr ssa.Instruction, mode string) *Val {
 			tr.use("uuid.FromString(id.String()) == id")
